@@ -288,7 +288,10 @@ func (fr *Frame) stdlibCall2(in *ssa.Call, callee *ssa.Function, name string, ar
 		e := Ite(okc, mk("ErrNil", SErr), App("ErrOther", SErr, App("parseFloatErr", SInt, sT)))
 		return &GVal{Tuple: []*GVal{{T: App("parseFloatVal", SF64, sT), Typ: types.Typ[types.Float64]}, {T: e, Typ: errType()}}, Typ: in.Type()}
 	case "sort.Stable":
-		return fr.sortStable(in, args)
+		return fr.sortStable(in, args, true)
+	case "sort.Sort":
+		// same contract without stability
+		return fr.sortStable(in, args, false)
 	case "reflect.ValueOf":
 		use("reflect.ValueOf(i) wraps the dynamic value; ValueOf(nil) is the invalid Value")
 		v := fr.term(args[0])
@@ -373,7 +376,7 @@ func (fr *Frame) stdlibCall2(in *ssa.Call, callee *ssa.Function, name string, ar
 //   assumed: it calls only x.Len/Less/Swap with indices in range and terminates whatever Less returns;
 //   for the slice adapters (Float64Slice, StringSlice) the data is permuted into ascending order;
 //   for adapter objects it assigns what their Less and Swap assign (a.hasError, the elements of a.items).
-func (fr *Frame) sortStable(in *ssa.Call, args []*GVal) *GVal {
+func (fr *Frame) sortStable(in *ssa.Call, args []*GVal, stable bool) *GVal {
 	ex := fr.ex
 	p := ex.p
 	w := p.w
@@ -468,7 +471,7 @@ func (fr *Frame) sortStable(in *ssa.Call, args []*GVal) *GVal {
 		ex.st.ghost["sortLen"] = w.SlLen(old)
 		// order: when Less has a clause  [order] G ==> (result <==> E)  the data ends up ascending and
 		// stable with respect to E (evaluated on the final arrangement), provided G holds at the end
-		fr.sortOrderFacts(tn, ref, App(pf, SInt, w.SlArr(old), w.SlLen(old), IntLit(0)), w.SlArr(old), w.SlLen(old), pf)
+		fr.sortOrderFacts(tn, ref, stable, w.SlArr(old), w.SlLen(old), pf)
 		return &GVal{Typ: in.Type()}
 	}
 	ex.unsupp("sort.Stable on an unsupported value")
@@ -484,7 +487,7 @@ func boolOr(t *Term) *Term {
 
 // sortOrderFacts adds what sort.Stable guarantees about the final arrangement in terms of the
 // adapter's Less contract (clause labelled "order").
-func (fr *Frame) sortOrderFacts(tn string, ref *Term, _ *Term, oldArr, n *Term, pf string) {
+func (fr *Frame) sortOrderFacts(tn string, ref *Term, stable bool, oldArr, n *Term, pf string) {
 	ex := fr.ex
 	p := ex.p
 	cn := "(*" + tn + ").Less"
@@ -526,6 +529,10 @@ func (fr *Frame) sortOrderFacts(tn string, ref *Term, _ *Term, oldArr, n *Term, 
 	// ascending: no later element is less than an earlier one
 	ex.addFact(mkQuant("forall", []*Term{I, J}, Implies(And(inRange, g), Not(evalAt(rel, J, I)))))
 	// stable: elements that changed their relative order are strictly ordered
-	ex.addFact(mkQuant("forall", []*Term{I, J}, Implies(And(inRange, g, Gt(permI, permJ)), evalAt(rel, I, J))))
+	if stable {
+		ex.addFact(mkQuant("forall", []*Term{I, J}, Implies(And(inRange, g, Gt(permI, permJ)), evalAt(rel, I, J))))
+	} else {
+		p.assumptions["stdlib: sort.Sort leaves the data ascending with respect to Less (a permutation; not necessarily stable)"] = true
+	}
 	p.assumptions["stdlib: sort.Stable leaves the data ascending and stable with respect to Less, provided every call of Less answered as its [order] contract clause says"] = true
 }
